@@ -3,7 +3,10 @@ properties C01 / C11 / C19 speak about.  Nothing here imports ombott.
 
 A rule is a tuple of atoms:
     ('L', text)                          literal text (may contain '/')
-    ('W', name|None, kind, arg)          wildcard; kind in {None, 'int', 'float', 're', 'path'}; arg = regex for 're'
+    ('W', name|None, kind, arg)          wildcard; kind in {None, 'int', 'float', 're', 'path', 'rex'}; arg = regex for 're';
+                                         for 'rex' (selector filter) arg = (regex, selector | None): the wildcard takes what the
+                                         regex matches; when the regex has groups the value is the first group that took part and
+                                         its 1-based index is the selector - the rule only matches when it equals the rule's selector
 """
 import re
 
@@ -34,6 +37,12 @@ def _render_w(atom, flavour, nxt):
             return None                      # `<>` is a syntax error; anonymous plain wildcards only exist as ':'
         return o + n + c
     a = arg or ''
+    sel = ''
+    if kind == 'rex':
+        a, k = arg
+        sel = '[%d]' % k if k is not None else ''
+        if flavour[1:] == 'colon':
+            return None                      # the bottle style has no place for a selector
     style = flavour[1:]
     if style == 'colon':                     # <x:int>  <x:re:a+>
         if name is None:
@@ -46,13 +55,13 @@ def _render_w(atom, flavour, nxt):
     if style == 'dot':                       # <x.int()>  <x.re(a+)>
         if name is None:
             return None
-        return f'{o}{n}.{kind}({a}){c}'
+        return f'{o}{n}.{kind}({a}){sel}{c}'
     if style == 'colonparen':                # {x:int()}  {x:re(a+)}  {:re(a+)}
-        return f'{o}{n}:{kind}({a}){c}'
+        return f'{o}{n}:{kind}({a}){sel}{c}'
     if style == 'bare':                      # <re(a+)>  {int()}   (anonymous only)
         if name is not None:
             return None
-        return f'{o}{kind}({a}){c}'
+        return f'{o}{kind}({a}){sel}{c}'
     raise AssertionError(flavour)
 
 
@@ -107,7 +116,7 @@ def default_text(rule):
 
 def pattern(rule):
     """The rule with every wildcard replaced by the marker (what decides 'same pattern' and priority)."""
-    return ''.join(a[1] if a[0] == 'L' else '\r' for a in rule)
+    return ''.join(a[1] if a[0] == 'L' else ('\r' + (str(a[3][1]) if a[2] == 'rex' and a[3][1] is not None else '')) for a in rule)
 
 
 def _mask_conv(rule, i):
@@ -149,6 +158,23 @@ def match(rule, path):
                 j = n
             out.append((atom[1], path[pos:j]))
             pos = j
+        elif atom[2] == 'rex':
+            mask, want = atom[3]
+            rx = _re_cache.get(mask)
+            if rx is None:
+                rx = _re_cache[mask] = re.compile(mask)
+            m = rx.match(path[pos:])
+            if not m:
+                return None
+            sel, v = None, m.group()
+            for gi, g in enumerate(m.groups(), 1):
+                if g is not None:
+                    sel, v = gi, g
+                    break
+            if sel != want:
+                return None
+            out.append((atom[1], v))
+            pos += m.end()
         else:
             mask, conv = _mask_conv(rule, i)
             rx = _re_cache.get(mask)
@@ -196,10 +222,15 @@ def resolve(rules, path):
 WILD_VALUES = ['', 'a', 'ab', '1', '-1', '1.5', 'a/b', 'ü', '\r', 'a\rb', 'aa', '12', 'a/b/by/c', '7/by/8']
 
 
+REX_VALUES = ['img', 'doc', 'raw', 'imgdoc', 'b-7', 'ab-12', 'do']
+
+
 def instantiate(rule, values=WILD_VALUES):
     """Paths obtained by replacing every wildcard with each value (one value for all wildcards at a time, plus
     mixed pairs for two-wildcard rules)."""
     nw = sum(1 for a in rule if a[0] == 'W')
+    if values is WILD_VALUES and any(a[0] == 'W' and a[2] == 'rex' for a in rule):
+        values = WILD_VALUES + REX_VALUES
     out = []
     if nw == 0:
         out.append(''.join(a[1] for a in rule))
@@ -207,6 +238,12 @@ def instantiate(rule, values=WILD_VALUES):
     combos = [(v,) * nw for v in values]
     if nw >= 2:
         combos += [(a, b) + (a,) * (nw - 2) for a in ('a', '1', 'ab') for b in ('1', 'b', '1.5') if a != b]
+    ws = [a for a in rule if a[0] == 'W']
+    if nw >= 2 and any(a[2] == 'rex' for a in ws):
+        # selector filters: every selector value at the rex position, ordinary values elsewhere
+        import itertools
+        pools = [REX_VALUES if a[2] == 'rex' else ['a', '7', '1.5', 'x/y'] for a in ws]
+        combos += list(itertools.product(*pools))
     for combo in combos:
         it = iter(combo)
         out.append(''.join(a[1] if a[0] == 'L' else next(it) for a in rule))
@@ -251,6 +288,7 @@ def consume(rule, path):
             out.append((atom[1], path[pos:j]))
             pos = j
         else:
+            assert atom[2] != 'rex', 'consume() does not model selector filters'
             mask, conv = _mask_conv(rule, i)
             rx = _re_cache.get(mask)
             if rx is None:
